@@ -34,6 +34,15 @@ func (g G) IsNonTerm(s string) bool {
 	return false
 }
 
+// ntSet is the set of declared non-terminals (for the analyses, which ask many times).
+func (g G) ntSet() map[string]bool {
+	m := make(map[string]bool, len(g.NonTerms))
+	for _, n := range g.NonTerms {
+		m[n] = true
+	}
+	return m
+}
+
 // ToCFG builds the library grammar.
 func (g G) ToCFG() *grammar.CFG {
 	ts := make([]grammar.Terminal, len(g.Terms))
@@ -147,6 +156,7 @@ func (g G) Show() string {
 // LangK returns every sentence of length ≤ k (words joined by a single space; "" is ε) by the
 // least-fixpoint of L_k(A) = ∪_{A→X1…Xn} L_k(X1)·…·L_k(Xn) truncated at length k.
 func (g G) LangK(k int) map[string]bool {
+	isNT := g.ntSet()
 	type set = map[string]bool
 	env := map[string]set{}
 	for _, n := range g.NonTerms {
@@ -178,7 +188,7 @@ func (g G) LangK(k int) map[string]bool {
 			for _, s := range p.Body {
 				next := set{}
 				var opts set
-				if g.IsNonTerm(s) {
+				if isNT[s] {
 					opts = env[s]
 				} else {
 					opts = set{s: true}
@@ -372,6 +382,7 @@ func (g G) MinLen() map[string]int {
 
 // Nullable returns the non-terminals deriving ε.
 func (g G) Nullable() map[string]bool {
+	isNT := g.ntSet()
 	nul := map[string]bool{}
 	for changed := true; changed; {
 		changed = false
@@ -381,7 +392,7 @@ func (g G) Nullable() map[string]bool {
 			}
 			all := true
 			for _, s := range p.Body {
-				if !g.IsNonTerm(s) || !nul[s] {
+				if !isNT[s] || !nul[s] {
 					all = false
 					break
 				}
@@ -397,13 +408,14 @@ func (g G) Nullable() map[string]bool {
 
 // Reachable returns the non-terminals reachable from the start symbol.
 func (g G) Reachable() map[string]bool {
+	isNT := g.ntSet()
 	r := map[string]bool{g.Start: true}
 	for changed := true; changed; {
 		changed = false
 		for _, p := range g.Prods {
 			if r[p.Head] {
 				for _, s := range p.Body {
-					if g.IsNonTerm(s) && !r[s] {
+					if isNT[s] && !r[s] {
 						r[s] = true
 						changed = true
 					}
@@ -416,6 +428,7 @@ func (g G) Reachable() map[string]bool {
 
 // Productive returns the non-terminals deriving some terminal string.
 func (g G) Productive() map[string]bool {
+	isNT := g.ntSet()
 	pr := map[string]bool{}
 	for changed := true; changed; {
 		changed = false
@@ -425,7 +438,7 @@ func (g G) Productive() map[string]bool {
 			}
 			ok := true
 			for _, s := range p.Body {
-				if g.IsNonTerm(s) && !pr[s] {
+				if isNT[s] && !pr[s] {
 					ok = false
 					break
 				}
